@@ -115,6 +115,8 @@ class CFG(object):
     self._marking_exc = False
     self._implicit_srcs = set()
     self._exc_pred_filter = None
+    self.if_true = {}
+    self.if_exc = {}
     self.entry = self._new("entry", None, [])
     self.exit = self._new("exit", None, [])
     self.raise_exit = self._new("raise", None, [])
@@ -169,8 +171,13 @@ class CFG(object):
       n = self._node("if", s, [s.test], preds, ctx)
       const = _const_truth(s.test)
       outs = set()
+      before = set(self.succ[n.id])
       if const is not False:
         outs |= self._seq(s.body, {n.id}, ctx)
+      # branch labels: successors entered because the test was true; every other (non-exceptional)
+      # successor of the node is entered because it was false (see sa/guards.py)
+      self.if_true[n.id] = set(self.succ[n.id]) - before
+      self.if_exc[n.id] = before
       if const is not True:
         outs |= self._seq(s.orelse, {n.id}, ctx) if s.orelse else {n.id}
       return outs
